@@ -10,7 +10,8 @@ the source on every run (`Props/C01.lean`: `left_chains`, `unary_shape`, …).
 This file is the executable model of that shape, generic in the table of operators:
 
 * `parse T fuel k ts` — rung `k` (0 = loosest chain, `T.n` = `unary`/`primary`) applied to the tokens `ts`;
-* `loop T fuel k left ts` — the `for` loop of rung `k` with the running result `left`;
+* `loop T fuel k left ts` — the `for` loop of rung `k` with the running result `left`; an operator may have a closing word
+  behind its right operand (`a größer als b ist`, `a um b Bit nach Links verschoben`), `T.cl o`;
 * `parseIf T fuel ts`, `loopIf` — `ifExpression`, the rung above the chains: `a, falls c, ansonsten b`, where the condition and
   the alternative are whole `ifExpression`s again (the loop rebinds, but the alternative has taken every further `, falls`
   already: chains nest to the right); parentheses restart here;
@@ -40,6 +41,7 @@ inductive Tok
   | sonst      -- `, ansonsten`
   | entw       -- `entweder`
   | oderk      -- `, oder`
+  | cls (o : Nat)   -- what closes operator `o` behind its right operand (`ist`, `Bit nach Links verschoben`)
   deriving DecidableEq, Repr
 
 /-- syntax trees (a `Grouping` node is not kept: parentheses only steer the parser) -/
@@ -55,6 +57,7 @@ inductive E
 structure Tbl where
   n : Nat
   lv : Nat → Nat
+  cl : Nat → Bool := fun _ => false      -- operators with a closing word behind the right operand
 
 /-- after the expression inside parentheses: the closing parenthesis must follow -/
 def closeParen (p : E × List Tok) : Option (E × List Tok) :=
@@ -67,6 +70,17 @@ def expectSonst (p : E × List Tok) : Option (E × List Tok) :=
   match p.2 with
   | .sonst :: rest' => some (p.1, rest')
   | _ => none
+
+/-- behind the right operand of operator `o`: its closing word, if it has one -/
+def expectCl (T : Tbl) (o : Nat) (p : E × List Tok) : Option (E × List Tok) :=
+  if T.cl o then
+    match p.2 with
+    | .cls o' :: rest' => if o' = o then some (p.1, rest') else none
+    | _ => none
+  else some p
+
+/-- the closing word of operator `o` as the printer writes it -/
+def clTok (T : Tbl) (o : Nat) : List Tok := if T.cl o then [.cls o] else []
 
 /-- after the first operand of `entweder`: `, oder` must follow -/
 def expectOderk (p : E × List Tok) : Option (E × List Tok) :=
@@ -95,7 +109,7 @@ def loop (T : Tbl) : Nat → Nat → E → List Tok → Option (E × List Tok)
     match ts with
     | .bop o :: rest =>
       if T.lv o = k then
-        (parse T f (k+1) rest).bind (fun p => loop T f k (.bin o left p.1) p.2)
+        ((parse T f (k+1) rest).bind (expectCl T o)).bind (fun p => loop T f k (.bin o left p.1) p.2)
       else some (left, ts)
     | _ => some (left, ts)
 /-- `ifExpression`: the value from the loosest chain rung, then the loop over `, falls` -/
@@ -131,7 +145,7 @@ mutual
 def pp (T : Tbl) (k : Nat) : E → List Tok
   | .atom a => [.atom a]
   | .un u e => .uop u :: pp T T.n e
-  | .bin o l r => wrap (decide (T.lv o < k)) (pp T (T.lv o) l ++ .bop o :: pp T (T.lv o + 1) r)
+  | .bin o l r => wrap (decide (T.lv o < k)) (pp T (T.lv o) l ++ .bop o :: (pp T (T.lv o + 1) r ++ clTok T o))
   | .ite a c b => .lp :: ((ppX T a ++ .falls :: (ppI T c ++ .sonst :: ppI T b)) ++ [.rp])
   | .xor a b => .lp :: ((.entw :: (pp T 0 a ++ .oderk :: pp T 0 b)) ++ [.rp])
 /-- print `e` as the value operand of a conditional expression (`boolXOR`): `entweder` needs no parentheses there, a
@@ -139,7 +153,7 @@ conditional expression does -/
 def ppX (T : Tbl) : E → List Tok
   | .atom a => [.atom a]
   | .un u e => .uop u :: pp T T.n e
-  | .bin o l r => pp T (T.lv o) l ++ .bop o :: pp T (T.lv o + 1) r
+  | .bin o l r => pp T (T.lv o) l ++ .bop o :: (pp T (T.lv o + 1) r ++ clTok T o)
   | .ite a c b => .lp :: ((ppX T a ++ .falls :: (ppI T c ++ .sonst :: ppI T b)) ++ [.rp])
   | .xor a b => .entw :: (pp T 0 a ++ .oderk :: pp T 0 b)
 /-- print `e` where a whole `ifExpression` is expected (top level, inside parentheses, condition and alternative of a
@@ -147,7 +161,7 @@ conditional expression) -/
 def ppI (T : Tbl) : E → List Tok
   | .atom a => [.atom a]
   | .un u e => .uop u :: pp T T.n e
-  | .bin o l r => pp T (T.lv o) l ++ .bop o :: pp T (T.lv o + 1) r
+  | .bin o l r => pp T (T.lv o) l ++ .bop o :: (pp T (T.lv o + 1) r ++ clTok T o)
   | .ite a c b => ppX T a ++ .falls :: (ppI T c ++ .sonst :: ppI T b)
   | .xor a b => .entw :: (pp T 0 a ++ .oderk :: pp T 0 b)
 end
